@@ -11,6 +11,7 @@ from props import c01
 
 FILES = ["Model_core.v", "Model_minerals.v", "Proofs_core.v", "Proofs_minerals.v", "Proofs_flow.v", "Proofs_rhs.v",
          "Entry_core.v", "Extract_core.v"]
+FILES += [f for f in MT.GLUE_TIE_FILES if f not in FILES]   # tie T of the glue model
 PROP = "Properties/C06.v"
 
 
@@ -56,8 +57,8 @@ def check_history(h, F0, fails):
 
 
 def run(chk):
-    ok, br = proofs.prove(chk, FILES, PROP, groups=("core",), gen_modules=())
-    chk.cov["trusted_base"] = common.TRUSTED_COMMON + [
+    ok, br = proofs.prove(chk, FILES, PROP, groups=("core",), gen_modules=MT.GLUE_TIE_GEN)
+    chk.cov["trusted_base"] = common.TRUSTED_COMMON + [MT.GLUE_TIE_TRUSTED,
         "hand-written Model_minerals.rhs / update, tied by trace validation (recorded eval_rhs outputs, returned F bit-exact from LSODA's last vector)",
         "NOT proved (LSODA accuracy): the bound 5e-3 + 1e-3 (N + 2 strain) on the returned F; measured here against DOP853 (rtol 1e-11)",
     ]
